@@ -15,6 +15,8 @@ open Driver SxVerif SxVerif.Spec.AppRun
 def parseBeh : String → Option Beh
   | "ok" => some .ok | "neg" => some .neg | "refused" => some .refused
   | "tarpit" => some .tarpit | "garbage" => some .garbage | "drop" => some .drop
+  | "slowok" => some .ok          -- answers positively, a few hundred milliseconds late (well within the timeout)
+  | "badline" => some .badline
   | _ => none
 
 /-- `a.b.c.d:port:beh:x` -/
@@ -27,10 +29,30 @@ def parseTarget (s : String) : Option Target :=
     pure ⟨s!"{ip}:{port}", b, x == "1"⟩
   | _ => none
 
+/-- a target token, or `badlines*N` (N bad target-list lines in a row) -/
+def parseTargets (s : String) : Option (List Target) :=
+  match s.splitOn "*" with
+  | ["badlines", n] => do
+    let n ← n.toNat?
+    pure (List.replicate n ⟨"-", .badline, false⟩)
+  | _ => do pure [← parseTarget s]
+
+/-- `appdelay cmd exitMs us=…;exit=…`: a run whose stdout refuses every write (a full disk) still waits its exit delay -/
+def handleAppDelay : List String → Option String
+  | [_cmd, exitMs, obs] => do
+    let exitMs ← parseNat? exitMs
+    let v := match obs.splitOn ";" with
+      | [u, e] => e == "exit=0" && (match (if u.startsWith "us=" then (u.drop 3).toString.toNat? else none) with
+          | some us => delayOK exitMs us
+          | none => false)
+      | _ => false
+    pure s!"{obs}\t{b2s v}"
+  | _ => none
+
 /-- `apprec cmd proto cfg targets observed` -/
 def handleAppRec : List String → Option String
   | [cmd, proto, _cfg, targets, obs] => do
-    let ts ← (if targets.isEmpty then some [] else (targets.splitOn ",").mapM parseTarget)
+    let ts ← (if targets.isEmpty then some [] else ((targets.splitOn ",").mapM parseTargets).map List.flatten)
     if !(cmd == "socks" || cmd == "elastic" || cmd == "docker") then none
     -- a negative answer exists for socks only
     if cmd != "socks" && ts.any (fun t => t.beh == .neg) then none
